@@ -1,6 +1,7 @@
 (* C09 -- string literals decode exactly, at every length and alignment. Statements only. *)
 From Coq Require Import List NArith Arith Bool.
 From SonicV Require Import Base.Blocks Spec.Ref Model.SkipStr Model.Inplace Model.TablesDefs Model.TablesOk Gen.Tables Model.EscRoundTrip.
+From SonicV Require Model.Utf8.
 From SonicV Require Model.InplaceClosed.
 Import ListNotations.
 Local Close Scope N_scope.
@@ -66,3 +67,15 @@ Theorem inplace_decoder_is_reference : forall fuel b0 b src dst out h rest,
      skipn src' b' = rest /\ skipn src' b' = skipn src' b0 /\
      dst + length out < src' /\ length b' = length b0.
 Proof. exact InplaceClosed.inplace_decodes_reference. Qed.
+
+(* UTF-8: the reference validator is the byte-wise automaton of the Unicode standard's table 3-7; the
+   encoding of every scalar value is accepted; and strict decoding of a literal taken from valid UTF-8
+   input yields valid UTF-8 (raw bytes are copied in order, escapes are ASCII and are replaced by the
+   encoding of a scalar value) -- what building a &str without re-validation relies on *)
+Theorem utf8_validator_is_the_automaton : forall l, utf8_valid l = Utf8.is_S0 (Utf8.run Utf8.S0 l).
+Proof. exact Utf8.utf8_valid_is_automaton. Qed.
+Theorem scalar_encodings_are_valid : forall cp, Utf8.is_scalar cp -> Utf8.run Utf8.S0 (utf8_encode cp) = Some Utf8.S0.
+Proof. exact Utf8.run_encode. Qed.
+Theorem decoded_text_is_valid_utf8 : forall fuel l d h rest,
+  utf8_valid l = true -> Ref.str_body true fuel l = Some (d, h, rest) -> utf8_valid d = true /\ utf8_valid rest = true.
+Proof. exact Utf8.decoded_string_is_valid_utf8. Qed.
